@@ -106,6 +106,12 @@ def catalogue() -> List[Tmpl]:
     T.append(Tmpl("max_bytes_const", "proto p\nconst LIMIT = {n:mb}\nmessage M {\n    option max_bytes = LIMIT\n    byte[{n:c}] a = 1\n}\n", lambda v: z3.And(CAP(v["c"]), 8 * v["c"] <= 65535, z3.Or(v["mb"] == 0, v["c"] <= v["mb"])), err_lines=(3, 4, 5)))
     T.append(Tmpl("max_bytes_nested_only_inner", "proto p\nmessage O {\n    message I {\n        option max_bytes = {n:mb}\n        byte[{n:c}] a = 1\n    }\n    I[2] x = 1\n}\n",
                   lambda v: z3.And(CAP(v["c"]), 16 * v["c"] <= 65535, z3.Or(v["mb"] == 0, v["c"] <= v["mb"])), err_lines=(2, 3, 4, 5)))
+    # ---- sizes reached through a DOTTED name whose head is shadowed by a nested message: the innermost visible T wins,
+    # so the size that the limit sees is the inner T.K's (symbolic), not the file-level T.K's (3 bits)
+    T.append(Tmpl("max_bytes_dotted_shadow", "proto p\nmessage T {\n    message K {\n        uint3 a = 1\n    }\n}\nmessage A {\n    option max_bytes = {n:mb}\n    message T {\n        message K {\n            byte[{n:c}] b = 1\n        }\n    }\n    T.K f = 1\n}\n",
+                  lambda v: z3.And(CAP(v["c"]), 8 * v["c"] <= 65535, z3.Or(v["mb"] == 0, v["c"] <= v["mb"])), err_lines=(7, 8, 10, 11, 12, 14, 15)))
+    T.append(Tmpl("size_dotted_shadow", "proto p\nmessage T {\n    message K {\n        uint3 a = 1\n    }\n}\nmessage A {\n    message T {\n        message K {\n            byte[{n:c}] b = 1\n        }\n    }\n    T.K[{n:c2}] f = 1\n}\n",
+                  lambda v: z3.And(CAP(v["c"]), CAP(v["c2"]), 8 * v["c"] <= 65535, 8 * v["c"] * v["c2"] <= 65535), err_lines=(7, 9, 10, 11, 13, 14)))
     # ---- options with numeric range
     T.append(Tmpl("opt_align", "proto p\noption c.struct_packing_alignment = {n:a}\n", lambda v: v["a"] <= 8))
     # ---- through an imported (concrete) file
@@ -174,6 +180,10 @@ def catalogue() -> List[Tmpl]:
     vi("dotted_missing", "proto p\nmessage A {\n    message B {}\n}\nmessage C {\n    A.X k = 1\n}\n", False, 6)
     vi("import_ok", 'proto p\nimport "lib.bitproto"\nmessage M {\n    lib.Pt p = 1\n    lib.Row r = 2\n    lib.Kind k = 3\n}\n', True, None, {"lib.bitproto": lib})
     vi("import_dup", 'proto p\nimport "lib.bitproto"\nimport other "lib.bitproto"\n', False, 3, {"lib.bitproto": lib})
+    # the same file under another spelling of its path is still the same file
+    vi("import_dup_dot_slash", 'proto p\nimport "lib.bitproto"\nimport other "./lib.bitproto"\n', False, 3, {"lib.bitproto": lib})
+    vi("import_dup_via_subdir", 'proto p\nimport one "sub/../lib.bitproto"\nimport two "lib.bitproto"\n', False, 3, {"lib.bitproto": lib, "sub/keep.bitproto": "proto keep\n"})
+    vi("import_two_files_same_content_ok", 'proto p\nimport "lib.bitproto"\nimport "sub/lib2.bitproto"\nmessage M {\n    lib.Pt a = 1\n    lib2.Pt b = 2\n}\n', True, None, {"lib.bitproto": lib, "sub/lib2.bitproto": lib.replace("proto lib", "proto lib2")})
     vi("import_name_clash", 'proto p\nmessage lib {}\nimport "lib.bitproto"\n', False, 3, {"lib.bitproto": lib})
     vi("import_cyclic", 'proto p\nimport "a.bitproto"\n', False, 2, {"a.bitproto": 'proto a\nimport "main.bitproto"\n'}, "a.bitproto")
     vi("import_self", 'proto p\nimport "main.bitproto"\n', False, 2)
@@ -228,6 +238,7 @@ def work(t: Tmpl) -> Dict[str, Any]:
     hole_lines = sorted({text.count("\n", 0, pos) + 1 for pos in holes})
     with Scratch() as sc:
         for fn, txt in t.files.items():
+            os.makedirs(os.path.dirname(sc.path(fn)), exist_ok=True)
             with open(sc.path(fn), "w") as f:
                 f.write(txt)
         main = sc.path(MAIN)
